@@ -78,9 +78,12 @@ def build_body(body: Dict[str, Any], req_wire: Dict[str, Any], is_sse: bool) -> 
     if is_sse:
         enc = body.get("sse", {})
         text = ""
-        for m in msgs:
+        blocks: List[List[Any]] = enc.get("blocks", [])  # [position, kind]: blocks that carry no message, between the events
+        for i_, m in enumerate(msgs):
+            text += "".join(noise_block(k_, enc) for p_, k_ in blocks if p_ == i_)
             data = json.dumps(m, ensure_ascii=enc.get("ensure_ascii", True), indent=2 if enc.get("split_data") else None)
             text += encode_event(data, **_enc(enc))
+        text += "".join(noise_block(k_, enc) for p_, k_ in blocks if p_ >= len(msgs))
         if enc.get("noise"):
             text = encode_event("tick", event="ping", eol=enc.get("eol", "\n")) + text
         unterminated = False
@@ -91,6 +94,28 @@ def build_body(body: Dict[str, Any], req_wire: Dict[str, Any], is_sse: bool) -> 
     if kind == "batch" or len(msgs) > 1:
         return json.dumps(msgs).encode(), msgs, False
     return json.dumps(msgs[0], ensure_ascii=body.get("ensure_ascii", True)).encode(), msgs, False
+
+
+NOISE_KINDS = ["ping-data", "typed-nodata", "comment", "id-only", "retry-only", "blank", "empty-data", "unknown-field", "message-nodata", "typed-then-comment"]
+
+
+def noise_block(kind: str, enc: Dict[str, Any]) -> str:
+    """an event-stream block that carries no JSON-RPC message (WHATWG: a block without data dispatches nothing and
+    a blank line always resets the pending event type)"""
+    eol = enc.get("eol", "\n")
+    sp = " " if enc.get("space", True) else ""
+    return {
+        "ping-data": f"event:{sp}ping{eol}data:{sp}tick{eol}{eol}",
+        "typed-nodata": f"event:{sp}ping{eol}{eol}",
+        "comment": f": hello{eol}{eol}",
+        "id-only": f"id:{sp}7{eol}{eol}",
+        "retry-only": f"retry:{sp}100{eol}{eol}",
+        "blank": eol,
+        "empty-data": f"data:{eol}{eol}",
+        "unknown-field": f"foo:{sp}bar{eol}{eol}",
+        "message-nodata": f"event:{sp}message{eol}{eol}",
+        "typed-then-comment": f"event:{sp}endpoint{eol}: c{eol}{eol}",
+    }[kind]
 
 
 def _enc(enc: Dict[str, Any]) -> Dict[str, Any]:
@@ -338,7 +363,7 @@ BODY_KINDS = ["result", "error", "batch", "notifs+response", "wrong_id", "empty"
 SSE_ENCODINGS: List[Dict[str, Any]] = [
     {}, {"event": None}, {"space": False}, {"eol": "\r\n"}, {"comment": True}, {"id_field": "7", "retry": 1000}, {"split_data": True}, {"event_after_data": True},
     {"event": None, "space": False, "eol": "\r\n"}, {"noise": True}, {"unterminated": True}, {"ensure_ascii": False},
-]
+] + [{"event": ev, "blocks": [[pos, k]]} for k in NOISE_KINDS for pos in (0, 9) for ev in (None, "message")]
 
 
 def job_matrix(col: Collector, seed: int, tier: str, shard: int, nshards: int) -> None:
@@ -397,6 +422,8 @@ def behaviour(draw):
             enc["id_field"] = draw(st.sampled_from(["1", "evt-9", ""]))
         if draw(st.integers(0, 3)) == 0:
             enc["ensure_ascii"] = False
+        if draw(st.integers(0, 2)) == 0:
+            enc["blocks"] = draw(st.lists(st.tuples(st.integers(0, 4), st.sampled_from(NOISE_KINDS)).map(list), min_size=1, max_size=3))
         body["sse"] = enc
     beh: Dict[str, Any] = {"status": status, "ctype": ct, "body": body}
     if status in (301, 302, 307):
